@@ -43,7 +43,24 @@ type C20Line struct {
 }
 
 type C20Case struct {
-	Lines []C20Line `json:"lines"`
+	Lines   []C20Line  `json:"lines,omitempty"`
+	Virtual []C20VLine `json:"virtual,omitempty"` // virtual-time stage (c20v_idle_test.go)
+}
+
+type C20VStep struct {
+	Op  string `json:"op"`            // adv | advdue | run | read | write | inactive
+	Ms  int    `json:"ms,omitempty"`  // adv: amount; advdue: offset to the next due time; inactive: what the downstream inactive handler takes
+	Idx int    `json:"idx,omitempty"` // run: which pending callback
+}
+
+type C20VLine struct {
+	Handlers  string     `json:"handlers"`
+	IdleMs    int        `json:"idle_ms"`
+	Prompt    bool       `json:"prompt"` // callbacks run at the instant their timer comes due
+	Steps     []C20VStep `json:"steps"`
+	PanicOn   int        `json:"panic_on,omitempty"`
+	CloseOn   int        `json:"close_on,omitempty"`
+	ExcPanics bool       `json:"exc_panics,omitempty"`
 }
 
 func genC20Line(t *rapid.T) C20Line {
@@ -200,11 +217,11 @@ func runC20Line(l C20Line) (*c20Obs, *core.Violation) {
 	}))
 	pl.ServeChannel(ch)
 	for _, s := range l.Stims {
-		if d := time.Duration(s.AtMs)*time.Millisecond - now(); d > 0 {
-			time.Sleep(d)
-		}
 		if l.InactiveMs > 0 && s.AtMs >= l.InactiveMs {
 			break
+		}
+		if d := time.Duration(s.AtMs)*time.Millisecond - now(); d > 0 {
+			time.Sleep(d)
 		}
 		for i := 0; i < imax(1, s.N); i++ {
 			st := c20Stamp{kind: s.Kind, start: now()}
@@ -228,7 +245,9 @@ func runC20Line(l C20Line) (*c20Obs, *core.Violation) {
 			time.Sleep(d)
 		}
 		obs.mu.Lock()
-		already := obs.inactiveAt != 0
+		// a Close issued from the idle event handler may be in progress (its downstream inactive handler lingering):
+		// the channel stopped being active when the first Close began
+		already := obs.inactiveAt != 0 || obs.closeBegin != 0
 		if !already {
 			obs.closeBegin = now()
 		}
@@ -437,10 +456,23 @@ func runC20(c C20Case) (out core.Outcome) {
 
 func TestC20(t *testing.T) {
 	core.Main(t, core.Prop[C20Case]{
-		ID:  "C20",
-		Gen: genC20,
-		Run: runC20,
+		ID: "C20",
+		Gen: func(t *rapid.T) C20Case {
+			if c20Virtual() {
+				return genC20V(t)
+			}
+			return genC20(t)
+		},
+		Run: func(c C20Case) core.Outcome {
+			if len(c.Virtual) > 0 {
+				return runC20V(c)
+			}
+			return runC20(c)
+		},
 		Summary: func(c C20Case) interface{} {
+			if len(c.Virtual) > 0 {
+				return map[string]interface{}{"virtual_timelines": len(c.Virtual), "first": c.Virtual[0]}
+			}
 			return map[string]interface{}{"timelines": len(c.Lines), "first": c.Lines[:imin(2, len(c.Lines))]}
 		},
 	})
